@@ -1,10 +1,13 @@
 from .. import flow
 from ..engines_cache import CacheEngine, S
+from ..engines_cache_adm import CacheAdmEngine
 
 ENG = CacheEngine(prop="C13")
-ENGINES = [ENG]
+# cache.adm: model-free search over TinyLfu (AdmitAndEvict path) / Arc / Slru / Random, which the model does not cover
+ENGINES = [ENG, CacheAdmEngine()]
 
 ASSUMPTIONS = [
+    "engine cache.adm is model-free (implementation-side monitors only) and covers the policies outside the Coq model: TinyLfu (builder default, the AdmitAndEvict path), Arc, Slru, Random; its over-capacity clause is not judged for Arc (F-20-arc-admit)",
     "K2 (operation-level) model: current_cost is a mathematical integer in the model, the u64 read by metrics() is its value mod 2^64 (fetch_sub wraps in the code); the interleaving sentence of C13 (writers vs background eviction, F-17/F-18 races) is not covered by a sequential model (partial)",
     "event buffer: exact FIFO of 512 per shard, try_send drops when full (ghost counter st_evdrops); run_maintenance drains 16 per shard per call, the janitor 256, introspection all",
     "capacity clause: proved per shard under the explicit side condition in_sync (policy tracks exactly the resident entries at their costs) for policies with C14's evict clause; the run-level statement is refuted on the code as found (F-28, F-29) and NOT proved for the patched model",
